@@ -164,7 +164,7 @@ func run(r *simkit.Run) {
 		// a pruned node: small emulated block files, a target of a few
 		// files; forks stay shallow (see pickParent) because a pruned node
 		// cannot reorganise through block data it has deleted
-		maxFile = []uint32{3000, 6000}[c.Intn(2, "prune-file-size")]
+		maxFile = []uint32{1500, 3000, 6000}[c.Intn(3, "prune-file-size")]
 		cfg.Prune = uint64(maxFile) * uint64(simkit.Range(c, 3, 6, "prune-files"))
 		r.Meta["prune"] = fmt.Sprintf("file=%d target=%d", maxFile, cfg.Prune)
 		r.Sig("prune")
@@ -325,7 +325,11 @@ func run(r *simkit.Run) {
 			s.CloneCompare(c.Bool(500, "clone-flush-first"))
 		case 14: // submit a new transaction
 			var t *MTx
-			switch k := simkit.Pick(c, "ptx-kind", 50, 25, 15, 10, 8, 5); k {
+			switch k := simkit.Pick(c, "ptx-kind", 50, 25, 15, 10, 8, 5, 2); k {
+			case 6:
+				// two clusters that together sit around the eviction limit
+				s.evictionLimitScenario()
+				continue
 			case 4:
 				t = s.buildTargetedReplacement()
 			case 5:
